@@ -334,6 +334,13 @@ outer:
 
 	// No better solution than allocate at the end of the table.
 	base = a.size - min
+	for a.usedBase.Get(a.delta + base) {
+		// Another line is already anchored at this base: sharing it would make the two lines decode
+		// each other's cells.
+		base++
+		a.taken.Grow(base + max + 1)
+		a.usedBase.Grow(a.delta + base + 1)
+	}
 	return
 }
 
